@@ -124,6 +124,13 @@ func (st LString) Format(f fmt.State, c rune) {
 		}
 		buf = append(buf, '"')
 		f.Write(buf)
+	case 's':
+		// precision and width count bytes, not UTF-8 sequences
+		s := string(st)
+		if prec, ok := f.Precision(); ok && prec < len(s) {
+			s = s[:prec]
+		}
+		formatPadded(f, s)
 	default:
 		defaultFormat(string(st), f, c)
 	}
